@@ -1055,6 +1055,32 @@ m("C02", "completed-not-absorbing-in-fsm", CH,
   "		FinalityStates:  []fsm.StateKey{datatransfer.Cancelled, datatransfer.Failed},",
   "C02.1", "the state machine keeps accepting events for Completed channels", "seeded/C02r2a")
 
+# ---------------- round-3 seeded regressions
+m("C03", "voucher-result-pause-bit-from-requirement", IMPL,
+  "		updateResponse, err = message.CompleteResponse(channelID.ID, chst.Status().IsAccepted(), chst.ResponderPaused(), &voucherResult)",
+  "		updateResponse, err = message.CompleteResponse(channelID.ID, chst.Status().IsAccepted(), chst.RequiresFinalization(), &voucherResult)",
+  "C03.6", "a finalizing responder that is still paused sends an un-paused Complete", "seeded/C03r3a")
+m("C15", "write-deadline-max-of-bounds", NET,
+  "	if dl, ok := ctx.Deadline(); ok {\n		deadline = dl\n	}",
+  "	if dl, ok := ctx.Deadline(); ok && dl.After(deadline) {\n		deadline = dl\n	}",
+  "C15.2", "a send to a stalled peer outlives the caller's deadline", "seeded/C15r3b")
+m("C16", "cleanup-without-channel-lock", GS,
+  "func (c *dtChannel) cleanup() {\n	c.lk.Lock()\n	defer c.lk.Unlock()\n",
+  "func (c *dtChannel) cleanup() {\n",
+  "C16.3", "a request hook overtaken by cleanup re-adds a mapping for a channel that is gone", "seeded/C16r3a")
+m("C04", "rejected-request-recorded-on-channel", GS,
+  "	// If we need to send a response, add the response message as an extension\n	if responseMessage != nil {",
+  "	ch.gsDataRequestRcvd(request.ID(), hookActions)\n	// If we need to send a response, add the response message as an extension\n	if responseMessage != nil {",
+  "C04.9", "a rejected graphsync request becomes the channel's current request", "seeded/C16r3b")
+m("C07", "non-unique-report-lowers-mark", CH,
+  "	// if this is not a unique block, no data progress is made, return\n	if !unique {\n		return\n	}",
+  "	// if this is not a unique block, no data progress is made, return\n	if !unique {\n		_, _ = c.blockIndexCache.updateIfGreater(evt, chid, index, readFromOriginal)\n		return\n	}",
+  "C07.3", "a non-unique report touches the high-water mark", "seeded/C07r3a")
+m("C17", "unsubscribe-asynchronous", IMPL,
+  "	return datatransfer.Unsubscribe(m.pubSub.Subscribe(subscriber))",
+  "	unsub := m.pubSub.Subscribe(subscriber)\n	return func() { go unsub() }",
+  "C17.2", "a subscriber is still called after its unsubscribe returned", "seeded/C17r3a")
+
 # ---------------- neutral variants: behaviour-preserving edits that must NOT be reported
 def n(props, id, file, find, replace, why, more=None, all=False):
     for p in props:
